@@ -110,7 +110,103 @@ def _body(case, env):
         return wrap_file(env, io.BytesIO(data_of(case["length"])), size)
     if shape == "pipe":
         return wrap_file(env, Pipe(data_of(case["length"])), size)
+    if shape in STREAM_KINDS:
+        return wrap_file(env, open_stream(shape, data_of(case["length"])), size)
     raise ValueError(shape)
+
+
+# ---------------------------------------------------------------------------------- body stream kinds (seekability)
+class _RawNoSeek(io.RawIOBase):
+    """A raw stream like a pipe / socket: readable, seekable() False; io.RawIOBase still HAS seek / tell attributes
+    (they raise io.UnsupportedOperation)."""
+
+    def __init__(self, data: bytes):
+        self._d, self._p = data, 0
+
+    def readable(self):
+        return True
+
+    def seekable(self):
+        return False
+
+    def readinto(self, b):
+        n = min(len(b), len(self._d) - self._p)
+        b[:n] = self._d[self._p:self._p + n]
+        self._p += n
+        return n
+
+
+class _SeekAttrNotSeekable:
+    """seek / tell exist, seekable() says False, seeking raises."""
+
+    def __init__(self, data: bytes):
+        self._b = io.BytesIO(data)
+
+    def read(self, n=-1):
+        return self._b.read(n)
+
+    def seekable(self):
+        return False
+
+    def seek(self, *a):
+        raise io.UnsupportedOperation("seek")
+
+    def tell(self):
+        raise io.UnsupportedOperation("tell")
+
+    def close(self):
+        self._b.close()
+
+
+class _SeekNoSeekableMethod:
+    """read / seek / tell that work, but no seekable() method (an old-style file object)."""
+
+    def __init__(self, data: bytes):
+        self._b = io.BytesIO(data)
+
+    def read(self, n=-1):
+        return self._b.read(n)
+
+    def seek(self, *a):
+        return self._b.seek(*a)
+
+    def tell(self):
+        return self._b.tell()
+
+    def close(self):
+        self._b.close()
+
+
+STREAM_KINDS = ("bytesio", "realfile", "bufraw", "ospipe", "readonly", "seekattr", "seeknomethod")
+
+
+def open_stream(kind: str, data: bytes):
+    """An io object of the given seekability kind positioned at the start of `data` (closed by FileWrapper.close)."""
+    import tempfile
+
+    if kind == "bytesio":
+        return io.BytesIO(data)
+    if kind == "realfile":
+        f = tempfile.TemporaryFile(prefix="verif-c11-body-", dir=os.environ.get("VERIF_TMP", "/var/tmp"))
+        f.write(data)
+        f.flush()
+        f.seek(0)
+        return f
+    if kind == "bufraw":
+        return io.BufferedReader(_RawNoSeek(data), buffer_size=16)
+    if kind == "ospipe":
+        assert len(data) < 60000
+        r, w = os.pipe()
+        with os.fdopen(w, "wb") as wf:
+            wf.write(data)
+        return os.fdopen(r, "rb")
+    if kind == "readonly":
+        return Pipe(data)
+    if kind == "seekattr":
+        return _SeekAttrNotSeekable(data)
+    if kind == "seeknomethod":
+        return _SeekNoSeekableMethod(data)
+    raise ValueError(kind)
 
 
 def _run_wsgi(resp, env):
@@ -186,7 +282,7 @@ def run_case(case) -> dict:
             else:
                 pre = c.get("pre") or {}
                 cls = _response_class(c["cls"]) if c.get("cls") is not None else Response
-                kwargs = {"direct_passthrough": c["shape"] in ("file", "pipe")}
+                kwargs = {"direct_passthrough": c["shape"] in ("file", "pipe") + STREAM_KINDS}
                 if not (c.get("cls") or {}).get("default_mimetype"):
                     kwargs["mimetype"] = "application/octet-stream"
                 if pre.get("via") == "ctor":         # validators handed to the constructor as plain headers by the app
@@ -922,4 +1018,22 @@ def preset_cases(lengths=(1, 3), wide=True, rng=None):
                      pre={} if c["api"] == "sf" else rng.choice([{"cl": True}, {"cl": True, "ar": "bytes"}, {"cr": f"bytes 0-{max(n, 1) - 1}/{n}"},
                                                                  {"cl": True, "cr": "bytes */7"}, {"via": "ctor"}, {}]))
             cases.append(c)
+    return cases
+
+
+def stream_cases(lengths=(1, 4, 9), blocks=(1, 3, 8192), wide=True):
+    """206 (and 200 / 416) responses over wrap_file() around io objects of every seekability kind (op "stream",
+    clauses Stream/..): make_conditional with the true length, and send_file over the same objects."""
+    cases = []
+    for n in lengths:
+        ranges = ["bytes=0-0", "bytes=1-", "bytes=-1", f"bytes=0-{n + 3}", f"bytes={n - 1}-", f"bytes={max(n - 2, 0)}-{n - 1}", "bytes=-2",
+                  f"bytes=0-{n - 1}", None, "bytes=99-", "bytes=0-0,2-2"]
+        if n > 3:
+            ranges += ["bytes=2-3", "bytes=3-", f"bytes=1-{n - 2}", "bytes=-3"]
+        if not wide:
+            ranges = ranges[:7] + ranges[11:13]
+        for kind in STREAM_KINDS:
+            for b in blocks:
+                for rg in ranges:
+                    cases.append({"op": "stream", "api": "mc", "method": "GET", "range": rg, "length": n, "shape": kind, "block": b})
     return cases
